@@ -32,23 +32,6 @@ def run_translator():
     return rc == 0, log
 
 
-def is_double_counted(buf):
-    """The known mis-sizing class: the literal dword is counted once per field
-    that refers to it (SOP2/SOPC with both sources 255; VOP2 madmk/madak whose
-    SRC0 is a literal or SDWA)."""
-    if len(buf) < 4:
-        return False
-    w = int.from_bytes(buf[:4], 'little')
-    top9 = w >> 23
-    if top9 in (0x17d, 0x17f):
-        return False
-    if top9 == 0x17e or (w >> 30 == 2 and w >> 28 != 0xb):
-        return w & 0xff == 0xff and (w >> 8) & 0xff == 0xff
-    if w >> 31 == 0 and (w >> 25) not in (0x3e, 0x3f):
-        return ((w >> 25) & 0x3f) in (23, 24, 36, 37) and (w & 0x1ff) in (0xff, 0xf9)
-    return False
-
-
 def is_sdwa_vop2(buf):
     if len(buf) < 8:
         return False
@@ -83,7 +66,7 @@ def monitor(c):
     if o['outcome'] == 'ok':
         if o['size'] > len(buf) or o['size'] not in (4, 8):
             return ('mis-sized instruction: %s decodes to %s with ByteSize %d (%d bytes given)'
-                    % (c['bytes'], o['name'], o['size'], len(buf))), is_double_counted(buf)
+                    % (c['bytes'], o['name'], o['size'], len(buf))), False
     if c.get('valid') and c.get('desc') is not None:
         if o['outcome'] != 'ok':
             return 'the encoding %s of a supported instruction (%s) is not decoded: %s' % (c['bytes'], json.dumps(c['desc']), o['outcome']), False
@@ -191,7 +174,7 @@ def main(argv):
     known = [(i, t) for i, (t, known) in enumerate(verdicts) if t and known]
     seen_known = set()
     for i, t in known:
-        key = 'vop3a-opcode-499-missing' if cases[i]['kind'] == 'kernel' else 'literal-dword-counted-twice'
+        key = 'vop3a-opcode-499-missing'
         if key not in seen_known:
             seen_known.add(key)
             rep.known_finding(t, key=key, replay_obj={'property': PROP, 'what': t,
